@@ -148,9 +148,9 @@ class BaseVersion(object):
     """
 
     re_valid_version = re.compile(
-        r"^((?P<epoch>\d+):)?"
+        r"^((?P<epoch>[0-9]+):)?"
         "(?P<upstream_version>[A-Za-z0-9.+:~-]+?)"
-        "(-(?P<debian_revision>[A-Za-z0-9+.~]+))?$")
+        r"(-(?P<debian_revision>[A-Za-z0-9+.~]+))?\Z")
     magic_attrs = (
         'full_version', 'epoch', 'upstream_version',
         'debian_revision', 'debian_version')
@@ -169,6 +169,12 @@ class BaseVersion(object):
         # If there no epoch ("1:..."), then the upstream version can not
         # contain a :.
         if m.group("epoch") is None and ":" in m.group("upstream_version"):
+            raise ValueError("Invalid version string %r" % version)
+        # If there is no debian_revision ("...-1"), then the upstream version
+        # can not contain a hyphen: the revision is what follows the last
+        # hyphen, so it was empty or had characters that it must not have.
+        if (m.group("debian_revision") is None
+                and "-" in m.group("upstream_version")):
             raise ValueError("Invalid version string %r" % version)
 
         # pylint: disable=attribute-defined-outside-init
